@@ -1,4 +1,5 @@
 import SaModel.Lemmas.C03LR
+import SaModel.Lemmas.C01MapOps
 /-
 `push` (the whole mutual block) preserves `LR` (leaf values within the physical range of their type):
     ExtOK ext → FloatOK → SValOK x → LR b → push ext b x = ok b' → LR b'
@@ -254,7 +255,7 @@ theorem push_LR (ext : Ext) (he : ExtOK ext) (hf : FloatOK) : ∀ (x : SVal) (b 
       obtain ⟨⟨o2, ks', vs'⟩, h3, h⟩ := (bind_ok _ _ _).1 h
       cases h
       simp only [LR] at hp ⊢
-      exact pushMapOps_LR ext he hf ops _ _ _ _ hx h3 hp.1 hp.2
+      exact pushMapOps_LR ext he hf ops _ _ _ _ _ hx h3 hp.1 hp.2
     | _ => simp [push, ctx_ok, notSupported, fail] at h
   | .unitVariant n i vn, b, b', _, h, hp => by
     cases b with
@@ -423,20 +424,18 @@ theorem pushMapEntries_LR (ext : Ext) (he : ExtOK ext) (hf : FloatOK) :
       (push_LR ext he hf k ks ks' hx.1 h2 hk) (push_LR ext he hf x vs vs' hx.2.1 h3 hv)
 
 theorem pushMapOps_LR (ext : Ext) (he : ExtOK ext) (hf : FloatOK) :
-    ∀ (ops : SMapOps) (offs : List Int) (ks vs : B) (r : List Int × B × B), SOpsOK ops →
-    pushMapOps ext offs ks vs ops = .ok r → LR ks → LR vs → LR r.2.1 ∧ LR r.2.2
-  | .nil, offs, ks, vs, r, _, h, hk, hv => by rw [pushMapOps] at h; cases h; exact ⟨hk, hv⟩
-  | .key k rest, offs, ks, vs, r, hx, h, hk, hv => by
-    rw [pushMapOps] at h
+    ∀ (ops : SMapOps) (pd : Bool) (offs : List Int) (ks vs : B) (r : List Int × B × B), SOpsOK ops →
+    pushMapOps ext pd offs ks vs ops = .ok r → LR ks → LR vs → LR r.2.1 ∧ LR r.2.2
+  | .nil, pd, offs, ks, vs, r, _, h, hk, hv => by
+    obtain ⟨_, rfl⟩ := pushMapOps_nil_ok h; exact ⟨hk, hv⟩
+  | .key k rest, pd, offs, ks, vs, r, hx, h, hk, hv => by
     simp only [SOpsOK] at hx
-    obtain ⟨o', _, h⟩ := (bind_ok _ _ _).1 h
-    obtain ⟨ks', h2, h⟩ := (bind_ok _ _ _).1 h
-    exact pushMapOps_LR ext he hf rest o' ks' vs r hx.2 h (push_LR ext he hf k ks ks' hx.1 h2 hk) hv
-  | .value x rest, offs, ks, vs, r, hx, h, hk, hv => by
-    rw [pushMapOps] at h
+    obtain ⟨_, o', ks', _, h2, h⟩ := pushMapOps_key_ok h
+    exact pushMapOps_LR ext he hf rest true o' ks' vs r hx.2 h (push_LR ext he hf k ks ks' hx.1 h2 hk) hv
+  | .value x rest, pd, offs, ks, vs, r, hx, h, hk, hv => by
     simp only [SOpsOK] at hx
-    obtain ⟨vs', h3, h⟩ := (bind_ok _ _ _).1 h
-    exact pushMapOps_LR ext he hf rest offs ks vs' r hx.2 h hk (push_LR ext he hf x vs vs' hx.1 h3 hv)
+    obtain ⟨_, vs', h3, h⟩ := pushMapOps_value_ok h
+    exact pushMapOps_LR ext he hf rest false offs ks vs' r hx.2 h hk (push_LR ext he hf x vs vs' hx.1 h3 hv)
 end
 
 end SaModel.Lemmas.C03
